@@ -22,7 +22,7 @@ PLAN = {"quick": [(2, 6), (3, 5), (4, 2)], "thorough": [(2, 8), (3, 7), (4, 3), 
 
 
 def bounds(tier):
-    return {"weighted families (name: candidates, #types, max distinct types, weights)": {k: [v[0], len(v[1]), v[2], list(v[3])] for k, v in s2r.families(tier).items()},
+    return {"weighted families (name: candidates, #types, max distinct types, weights)": {k: [v[0], len(v[1]), v[2], list(v[3])] + ([{"added to every profile": f"{len(v[4][0])} single-choice types with weights from {list(v[4][1])}"}] if len(v) > 4 else []) for k, v in s2r.families(tier).items()},
             "(candidates, max ballots)": PLAN[tier], "alphabet_sizes": {n: len(R.rankings(n)) + 1 for n, _ in PLAN[tier]},
             "winners": "all", "difficulty_functions": ["bp_estimate", "cp_estimate"]}
 
@@ -61,8 +61,8 @@ def judge(n, prof, winner, kind, norm, ana=None):
 def run_shard(sh, rec):
     if sh[0] == "wt":
         _, fam, first, part, parts = sh
-        n, types, K, W = s2r.families(TIER_ACTIVE)[fam]
-        gen = s2r.weighted_profiles(types, K, W, first, part, parts)
+        n, types, K, W, *base = s2r.families(TIER_ACTIVE)[fam]
+        gen = s2r.weighted_profiles(types, K, W, first, part, parts, *base)
         B, maxB, weighted = None, None, True
     else:
         n, B, first = sh
